@@ -138,6 +138,13 @@ def r1_order(program, rep):
         src = chain(cl.iter)
         ds = fl.reaching(src, cfg.loop_head[id(cl)]) if src else []
         tv = chain(lp.target.elts[1])
+        if not calls_in(fn, "compress_flood_fill_regions") and any(
+                isinstance(x, ast.Call) and
+                call_name(x)[0] == "get_regions_and_coremasks"
+                for x in ast.walk(fn)):
+            raise AnalysisError("flood_fill_aplx: the regions are read off "
+                                "a region tree built here, not returned by "
+                                "compress_flood_fill_regions; not analysed")
         okc = len(ds) == 1 and isinstance(ds[0].value, ast.Call) and \
             call_name(ds[0].value)[0] == "compress_flood_fill_regions" and \
             len(ds[0].value.args) == 1 and not ds[0].value.keywords and \
